@@ -876,8 +876,8 @@ def sl_eval(cx, stmts=None, env=None, keep_params=True, with_conds=False, keep=(
             elif isinstance(st, ast.Raise):
                 return []
             elif isinstance(st, ast.If):
-                if ends_in_raise(st.body) and not st.orelse:
-                    continue
+                if ends_in_raise(st.body) and not st.orelse and not any(isinstance(x, ast.Return) for s_ in st.body for x in ast.walk(s_)):
+                    continue            # a guard: the arm only raises (an arm that returns on some paths and raises at its end is a branch)
                 nxt = []
                 if len(envs) > 16 or depth > max_depth:
                     # too many paths: give up on precision for names assigned inside
